@@ -909,6 +909,8 @@ impl Format for ast::Expr {
                 | token![unop -] | token![!] | token![~]
                 if matches!(x.value, ast::Expr::LitInt { value, .. } if value < 0)
                     || matches!(x.value, ast::Expr::LitFloat { value } if value.is_sign_negative() && !value.is_nan())
+                    // (likewise `-` followed by `--x` would lex as `--` `-`)
+                    || matches!(x.value, ast::Expr::XcrementOp { .. })
                     => out.fmt_optional_parens(|out| out.fmt((op, "(", SuppressParens(x), ")"))),
 
                 | token![unop -] | token![!] | token![~]
